@@ -9,6 +9,10 @@ yabgp closes it itself (header error -> NOTIFICATION -> closeConnection, hold ti
 NOTIFICATION from the peer; then connectionLost with disconnected True) -- and are re-established (new
 BGP object).  UPDATEs carry every combination of {IPv4 NLRI, IPv4 withdrawals, MP_REACH_NLRI (14),
 MP_UNREACH_NLRI (15)}, 14 and 15 of the same or of different families, on both directions.
+Received prefixes are encoded by the harness itself (RFC 4271 4.3), for non-octet lengths with arbitrary
+padding bits: the dictionary oracle identifies a prefix up to its padding.  The session configuration is a
+generator dimension: eBGP and iBGP (local AS == remote AS: the REST view adds a default LOCAL_PREF), sends
+directly and through the REST view, identical re-announcements with and without LOCAL_PREF.
 
 After EVERY event the observable state (adj_rib_in['ipv4'], adj_rib_out['ipv4'], receive_version,
 send_version, the six flowspec/sr/mpls_vpn dictionaries, in dictionary order, the disconnected flag) is compared
@@ -100,7 +104,55 @@ S_ATTRS = [
     {1: 0, 2: [[2, [65001]]], 3: '10.0.0.1', 4: 10},
     {1: 0, 2: [[2, [65001, 65020]]], 3: '10.0.0.1'},
 ]
+S_ATTRS.append({**S_ATTRS[0], 5: 100})         # [3]: [0] with the value the iBGP default has
+S_ATTRS.append({**S_ATTRS[0], 5: 200})         # [4]: [0] with another LOCAL_PREF
 S_FS_ATTRS = [{1: 0, 2: [], 5: 100}, {1: 0, 2: [], 5: 200}, {1: 0, 2: [], 5: 100, 4: 7}]
+
+
+# ------------------------------------------------------------------------------------------
+# IPv4 prefixes as sent (RFC 4271 4.3: length octet, ceil(len/8) octets, trailing bits irrelevant).
+# A received prefix is 'a.b.c.d/len' (zero padding) or ['a.b.c.d/len', pad]: pad is OR-ed into the unused low
+# bits of the last octet.  The route is 'a.b.c.d/len' whatever the padding.
+# ------------------------------------------------------------------------------------------
+def pcanon(x):
+    return x if isinstance(x, str) else x[0]
+
+
+def ppad(x):
+    return 0 if isinstance(x, str) else int(x[1])
+
+
+def enc_prefix(x):
+    addr, ln = pcanon(x).split('/')
+    ln = int(ln)
+    octs = bytearray(int(o) for o in addr.split('.'))
+    assert len(octs) == 4 and 0 <= ln <= 32
+    v = int.from_bytes(octs, 'big')
+    assert ln == 32 or v & ((1 << (32 - ln)) - 1) == 0, 'generator: host bits set in %r' % (x,)
+    field = bytearray(octs[:(ln + 7) // 8])
+    if ln % 8:
+        field[-1] |= ppad(x) & (0xff >> (ln % 8))
+    return bytes([ln]) + bytes(field)
+
+
+def wire_value(x):
+    """(the field left-justified in 32 bits, length): the model's wprefix"""
+    e = enc_prefix(x)
+    return int.from_bytes(e[1:].ljust(4, b'\0'), 'big'), e[0]
+
+
+def prefix_number(s):
+    """'a.b.c.d/len' -> (a.b.c.d) * 64 + len, YRib.pfx; None for any other string"""
+    try:
+        addr, ln = s.split('/')
+        octs = [int(o) for o in addr.split('.')]
+        ln = int(ln)
+        if len(octs) == 4 and all(0 <= o <= 255 for o in octs) and 0 <= ln <= 63 and \
+                s == '%d.%d.%d.%d/%d' % (tuple(octs) + (ln,)):
+            return int.from_bytes(bytes(octs), 'big') * 64 + ln
+    except (ValueError, AttributeError):
+        pass
+    return None
 
 
 def keystr(rule):
@@ -162,7 +214,8 @@ class Render(object):
         self.keys[side][keystr(rule)] = rule
 
     def prefix(self, p):
-        return self.I('p', p)
+        n = prefix_number(p)
+        return n if n is not None else (1 << 40) + self.I('p', p)
 
     def rule(self, r):
         return [[kcode(k), self.I('v', canon(str(v)))] for k, v in r.items()]
@@ -213,6 +266,12 @@ class Render(object):
         x = self.attrs(a)
         return '(mkAttrs %d %s %s)' % (x[0], 'None' if not x[1] else '(Some %s)' % self.coq_mp(x[1][0]),
                                        'None' if not x[2] else '(Some %s)' % self.coq_mp(x[2][0]))
+
+    def coq_wupdate(self, attr, nlri, withdraw):
+        """received UPDATE: decoded attributes, prefixes as sent"""
+        return '(mkWUpdate %s [%s] [%s])' % (self.coq_attrs(attr),
+                                             '; '.join('(%d, %d)' % wire_value(x) for x in nlri),
+                                             '; '.join('(%d, %d)' % wire_value(x) for x in withdraw))
 
     def coq_update(self, msg):
         return '(mkUpdate %s [%s] [%s])' % (self.coq_attrs(msg['attr']),
@@ -374,6 +433,43 @@ def combo_followups(side):
             ('send', s_combo([], [], None, (73, [0]))), ('send', s_combo([], [0, 1], None, None))]
 
 
+# -- the same prefix with different padding bits in announce / re-announce / withdraw positions
+PP, PQ, PH = '10.1.1.4/30', '10.3.2.0/23', '128.0.0.0/1'
+
+
+def m_pad(nl, wd, a=0):
+    return {'attr': dict(ATTRS[a]) if nl else {}, 'nlri': [list(x) for x in nl], 'withdraw': [list(x) for x in wd]}
+
+
+def pad_alphabet():
+    return [('recv', m_pad([(PP, 0)], [])), ('recv', m_pad([(PP, 1)], [])), ('recv', m_pad([(PP, 3)], [])),
+            ('recv', m_pad([(PP, 2)], [], 1)),                          # other attributes: a real change
+            ('recv', m_pad([], [(PP, 0)])), ('recv', m_pad([], [(PP, 2)])),
+            ('recv', m_pad([(PP, 1), (PP, 2)], [])),                    # twice in one message
+            ('recv', m_pad([(PP, 1)], [(PP, 3)])),                      # withdrawn and announced in one message
+            ('recv', m_pad([(PQ, 1)], [])), ('recv', m_pad([], [(PQ, 0)])),
+            ('recv', m_pad([(PH, 0x55)], [])), ('recv', m_pad([], [(PH, 0x2a)])),
+            ('recv', m_pad([('10.1.1.8/30', 3)], [])),                  # the neighbour: NOT the same route
+            ('drop',)]
+
+
+# -- identical re-announcements with and without LOCAL_PREF (the REST view of an iBGP session adds a default)
+def reann_alphabet():
+    nolp = {'attr': {1: 0, 2: [], 14: {'afi_safi': [1, 133], 'nexthop': '', 'nlri': [jsonable_rule(FS_RULES[0])]}},
+            'nlri': [], 'withdraw': []}
+    return [('send', s_ann([0], 0)), ('send', s_ann([0], 3)), ('send', s_ann([0], 4)), ('send', s_ann([0], 1)),
+            ('send', s_ann([0, 1, 0], 2)),
+            ('send', s_wd([0])), ('send', s_wd_ann([0], [0], 0)), ('send', nolp), ('drop',)]
+
+
+def short_traces(al, kind, n_ann, deep):
+    """all traces up to length 2; length 3: the first two from the first n_ann letters (all when deep)"""
+    out = [(kind, [x]) for x in al] + [(kind, [x, y]) for x in al for y in al]
+    head = al if deep else al[:n_ann]
+    out += [(kind, [x, y, z]) for x in head for y in head for z in (al if deep else head)]
+    return out
+
+
 def recv_alphabet(big):
     al = [('recv', m_ann([0], 0)), ('recv', m_ann([0], 1)), ('recv', m_ann([1], 0)),
           ('recv', m_wd([0])), ('recv', m_wd([1])),
@@ -392,7 +488,8 @@ def recv_alphabet(big):
                ('recv', m_combo([2], [0], (133, [0, 2]), (133, [1, 0]), 1)),
                ('recv', m_combo([], [], (128, [1]), (128, [3]))),
                ('recv', m_combo([0], [], (128, [3]), (133, [0]), 2)),
-               ('recv', m_combo([], [1], (133, [1]), (128, [3, 0]), 2))]
+               ('recv', m_combo([], [1], (133, [1]), (128, [3, 0]), 2)),
+               ('recv', m_pad([(PP, 1)], [])), ('recv', m_pad([(PP, 2)], [])), ('recv', m_pad([], [(PP, 3)]))]
         al += [('close', k) for k in CLOSE_KINDS]
     return al
 
@@ -418,7 +515,8 @@ def send_alphabet(big):
                ('send', s_combo([], [], (128, [1]), (128, [0]))),
                ('send', s_combo([0], [], (128, [0]), (133, [0]), 2)),
                ('send', s_combo([], [1], (73, [1]), (73, [0]), 2)),
-               ('send', s_combo([], [], (133, [1]), (73, [0]), 1))]
+               ('send', s_combo([], [], (133, [1]), (73, [0]), 1)),
+               ('send', s_ann([0], 3)), ('send', s_ann([0], 4))]
         al += [('close', k) for k in CLOSE_KINDS]
     return al
 
@@ -485,16 +583,30 @@ def mp_expect(before, fam, attr, has_table=True):
 # ------------------------------------------------------------------------------------------
 # running one trace on the implementation
 # ------------------------------------------------------------------------------------------
+LOCAL_AS = 65001
+
+
+def effective_attr(attr, ibgp):
+    """what the REST view hands to the protocol (and what the Adj-RIB-Out must hold): on an iBGP session an
+    update with attributes but without LOCAL_PREF gets the default 100.  Always a fresh copy."""
+    a = {int(k): v for k, v in json.loads(json.dumps({str(k): v for k, v in attr.items()})).items()}
+    if ibgp and a and 5 not in a:
+        a[5] = 100
+    return a
+
+
 class Runner(object):
-    def __init__(self):
+    def __init__(self, ibgp=False):
+        self.ibgp = ibgp
         self.render = Render()
         for r in FS_RULES + VPN_ROUTES + SR_RULES:
             self.render.learn('recv', r)
             self.render.learn('send', jsonable_rule(r))
         for r in VPN_ROUTES:                  # what a withdrawal looks like after parsing
             self.render.learn('recv', dict(r, label=[524288]))
-        self.msgs = dict(explore.messages())
-        self.d = Driver(rib=True, afi_safi=AFI_SAFI)
+        remote_as = LOCAL_AS if ibgp else 65002
+        self.msgs = dict(explore.messages(remote_as))
+        self.d = Driver(rib=True, afi_safi=AFI_SAFI, local_as=LOCAL_AS, remote_as=remote_as)
         self.d.apply(('boot',))
         self.establish()
         self.client = FLASK_APP.test_client()
@@ -568,13 +680,13 @@ class Runner(object):
         self.reconnect()
 
     def wire(self, msg):
-        """UPDATE octets from yabgp's own encoders.  Update.construct drops the withdrawn routes of a message
-        that also has attributes (C06 finding), so the three fields are encoded separately and spliced."""
+        """UPDATE octets: attributes from yabgp's own encoder, the two prefix fields from enc_prefix (padding bits
+        as the event says), spliced (RFC 4271 4.3)."""
         import struct
         from yabgp.message.update import Update
-        wd = Update.construct_prefix_v4(msg['withdraw'], False) if msg['withdraw'] else b''
+        wd = b''.join(enc_prefix(x) for x in msg['withdraw'])
         at = Update.construct_attributes(msg['attr'], True) if msg['attr'] else b''
-        nl = Update.construct_prefix_v4(msg['nlri'], False) if msg['nlri'] else b''
+        nl = b''.join(enc_prefix(x) for x in msg['nlri'])
         body = struct.pack('!H', len(wd)) + wd + struct.pack('!H', len(at)) + at + nl
         return Update.construct_header(body)
 
@@ -595,9 +707,12 @@ class Runner(object):
             if e[0] == 'recv':
                 data = self.wire(e[1])
                 parsed = Update().parse(None, data[19:], True, {})
-                msg = {'attr': parsed['attr'], 'nlri': parsed['nlri'], 'withdraw': parsed['withdraw']}
-                if parsed['sub_error'] or parsed['nlri'] != e[1]['nlri'] or parsed['withdraw'] != e[1]['withdraw']:
-                    raise AssertionError('generator: the UPDATE does not carry the intended routes %r' % (e,))
+                # the routes are the INTENDED ones (prefix up to padding); only the attribute values are read
+                # back from the decoder
+                msg = {'attr': parsed['attr'], 'nlri': [pcanon(x) for x in e[1]['nlri']],
+                       'withdraw': [pcanon(x) for x in e[1]['withdraw']]}
+                if parsed['sub_error']:
+                    bad('a well-formed UPDATE was rejected (sub_error %r)' % (parsed['sub_error'],), i)
                 before = {f: self.abs_mp('recv', getattr(p, t)) for f, t in
                           (('flowspec', 'flowspec_receive_dict'), ('mpls_vpn', 'mpls_vpn_receive_dict'))}
                 vpnkeys = set(p.mpls_vpn_receive_dict)
@@ -607,7 +722,7 @@ class Runner(object):
                 self.do(('data', self.cid, data))
                 if self.d.exc != exc0:
                     bad('exception while the UPDATE was processed', i)
-                coq.append('(ERecv %s)' % R.coq_update(msg))
+                coq.append('(ERecvW %s)' % R.coq_wupdate(msg['attr'], e[1]['nlri'], e[1]['withdraw']))
                 # -- oracle: IPv4 table and counter from the start of the connection
                 o_in.ipv4(msg)
                 if p.adj_rib_in['ipv4'] != o_in.rib:
@@ -644,12 +759,11 @@ class Runner(object):
                     r = self.client.post('/v1/peer/%s/send/update' % PEER, data=json.dumps(body), headers=self.hdr)
                     if r.status_code != 200:
                         bad('REST send/update answered %d' % r.status_code, i)
-                    stored = {'attr': {int(k): v for k, v in json.loads(json.dumps(body['attr'])).items()},
-                              'nlri': msg['nlri'], 'withdraw': msg['withdraw']}
+                    stored = {'attr': effective_attr(msg['attr'], self.ibgp),
+                              'nlri': list(msg['nlri']), 'withdraw': list(msg['withdraw'])}
                 else:
-                    stored = json.loads(json.dumps({'attr': {str(k): v for k, v in msg['attr'].items()},
-                                                    'nlri': msg['nlri'], 'withdraw': msg['withdraw']}))
-                    stored['attr'] = {int(k): v for k, v in stored['attr'].items()}
+                    stored = {'attr': effective_attr(msg['attr'], self.ibgp),
+                              'nlri': list(msg['nlri']), 'withdraw': list(msg['withdraw'])}
                     ok = p.update_rib_out_ipv4(stored)
                     if ok is not True:
                         bad('update_rib_out_ipv4 returned %r' % (ok,), i)
@@ -774,6 +888,22 @@ def gen_traces(ctx):
             for c in cl:
                 for c2 in cl:
                     out.append((side + '-combined-pairs', su + [c, c2]))
+    # -- padding bits of received prefixes; identical re-announcements
+    out += short_traces(pad_alphabet(), 'recv-padding', 6, ctx.thorough)
+    out += short_traces(reann_alphabet(), 'send-reannounce', 5, ctx.thorough)
+    # -- the other session configuration: iBGP (kind 'ibgp/...': run on a second peering)
+    out += short_traces(reann_alphabet(), 'ibgp/send-reannounce', 5, ctx.thorough)
+    for al, side in ((ra, 'recv'), (sa, 'send')):
+        for n in ((1, 2, 3) if ctx.thorough else (1, 2)):
+            for t in itertools.product(range(len(al)), repeat=n):
+                out.append(('ibgp/%s-exhaustive' % side, [al[i] for i in t]))
+        for x in al[:-1]:
+            for d in DROPS:
+                out.append(('ibgp/%s-then-drop' % side, [x, d]))
+    if ctx.thorough:
+        cl, su = combo_letters('send'), combo_setup('send')
+        for c in cl:
+            out.append(('ibgp/send-combined-after-setup', su + [c]))
     rb, sb = recv_alphabet(True), send_alphabet(True)
     if ctx.thorough:
         ipv4 = [e for e in ra if e[0] == 'drop' or not (set(e[1]['attr']) & {14, 15})]
@@ -787,7 +917,7 @@ def gen_traces(ctx):
     for k in range(nrand):
         n = rng.choice([5, 8, 12, 20, 40] if ctx.thorough else [5, 8, 12, 20])
         al = mixed if k % 3 == 0 else (rb if k % 3 == 1 else sb)
-        out.append(('random', [rng.choice(al) for _ in range(n)]))
+        out.append(('ibgp/random' if k % 4 == 3 else 'random', [rng.choice(al) for _ in range(n)]))
     return out
 
 
@@ -803,6 +933,7 @@ def describe(e):
 
 def run(ctx):
     traces = gen_traces(ctx)
+    traces.sort(key=lambda t: t[0].startswith('ibgp/'))      # stable: one peering at a time (global CONF)
     runner = Runner()
     cases, viol, mism = [], [], []
     n_events = 0
@@ -810,8 +941,12 @@ def run(ctx):
     kinds = {}
     n_both = sum(1 for _k, evs in traces for e in evs
                  if e[0] in ('recv', 'send') and 14 in e[1]['attr'] and 15 in e[1]['attr'])
+    n_pad = sum(1 for _k, evs in traces for e in evs if e[0] == 'recv'
+                for x in e[1]['nlri'] + e[1]['withdraw'] if ppad(x))
     for kind, evs in traces:
         kinds[kind] = kinds.get(kind, 0) + 1
+        if kind.startswith('ibgp/') and not runner.ibgp:
+            runner = Runner(ibgp=True)
         coq, states, v = runner.run(evs, 'direct')
         n_events += len(evs)
         for x in v:
@@ -885,6 +1020,8 @@ def run(ctx):
         'extra': {'traces': len(cases), 'events': n_events, 'trace_kinds': kinds, 'rest_traces': flask_runs,
                   'session_end_kinds': ['drop'] + ['close/' + k for k in CLOSE_KINDS],
                   'updates_with_14_and_15': n_both,
+                  'configurations': ['eBGP 65001/65002', 'iBGP 65001/65001'],
+                  'received_prefixes_with_nonzero_padding': n_pad,
                   'pool': {'prefixes': len(PREFIXES), 'attribute_sets': len(ATTRS), 'flowspec_rules': len(FS_RULES),
                            'vpnv4_routes': len(VPN_ROUTES), 'sr_policies': len(SR_RULES)}},
     }
@@ -919,7 +1056,8 @@ def replay(ctx, obj):
                         a[2] = [tuple(s) for s in a[2]]
                 return a
             evs.append((e[0], {'attr': fix(m['attr']), 'nlri': m['nlri'], 'withdraw': m['withdraw']}))
-    _, _, viol = Runner().run(evs, 'flask' if str(v.get('kind', '')).endswith('/REST') else 'direct')
+    kind = str(v.get('kind', ''))
+    _, _, viol = Runner(ibgp=kind.startswith('ibgp/')).run(evs, 'flask' if kind.endswith('/REST') else 'direct')
     for x in viol:
         print('still fails: step %s: %s%s' % (x.get('step'), x['what'],
                                               ' [known %s]' % x['known'] if x.get('known') else ''))
